@@ -29,9 +29,10 @@ type c01Case struct {
 	// message must arrive whole all the same (bare LFs end a stretch as far
 	// as the limiter is concerned, CRLF is not required).
 	LineLimit int `json:"line_limit,omitempty"`
-	// PauseAt > 0: the server has a 15 ms WriteTimeout (and no read timeout);
-	// the client sends the first PauseAt octets, waits 50 ms of wall-clock
-	// time and sends the rest. When segments arrive has no bearing on the
+	// PauseAt > 0: the server has a 60 ms WriteTimeout (and no read timeout);
+	// the client sends the first PauseAt octets, waits 150 ms of wall-clock
+	// time and sends the rest (never under TLS: a handshake has no business
+	// under a deadline that short on a busy machine). When segments arrive has no bearing on the
 	// result; time is only the trigger, nothing is armed on a correct server.
 	PauseAt int `json:"pause_at,omitempty"`
 	// TLS: the connection is under (implicit) TLS; every segment is a record
@@ -91,9 +92,9 @@ func c01Run(c c01Case) Verdict {
 	over := cfg.MaxMessageBytes > 0 && int64(len(want)) > cfg.MaxMessageBytes
 	pause := c.PauseAt > 0 && c.PauseAt < len(stream)
 	if pause {
-		cfg.WriteTimeoutMs = 15
+		cfg.WriteTimeoutMs = 60
 	}
-	if c.TLS {
+	if c.TLS && !pause {
 		cfg.TLS = "implicit"
 	}
 	finalEOF := c.FinalEOF && !pause && !c.TLS
@@ -113,7 +114,7 @@ func c01Run(c c01Case) Verdict {
 	if pause {
 		w.Send(stream[:c.PauseAt])
 		w.WaitQuiet()
-		time.Sleep(50 * time.Millisecond)
+		time.Sleep(150 * time.Millisecond)
 		w.Send(stream[c.PauseAt:])
 	} else if finalEOF {
 		w.SendCutsFinal(stream, c.Cuts)
@@ -149,7 +150,7 @@ func c01Run(c c01Case) Verdict {
 	if pause {
 		v.Classes = append(v.Classes, "paused_past_write_timeout")
 	}
-	if c.TLS {
+	if c.TLS && !pause {
 		v.Classes = append(v.Classes, "under_tls")
 	}
 	if finalEOF {
@@ -248,7 +249,7 @@ func c01Gen(t *rapid.T) c01Case {
 	c.TLS = rapid.IntRange(0, 7).Draw(t, "tls") == 0
 	c.FinalEOF = rapid.IntRange(0, 3).Draw(t, "final_eof") == 0
 	// a few paused transfers (each costs its pause in wall-clock time)
-	if len(stream) > 2 && rapid.IntRange(0, 999).Draw(t, "pause")%50 == 7 {
+	if len(stream) > 2 && rapid.IntRange(0, 999).Draw(t, "pause")%150 == 7 {
 		c.PauseAt = rapid.IntRange(1, len(stream)-1).Draw(t, "pause_at")
 	}
 	if rapid.IntRange(0, 2).Draw(t, "line_limit") == 0 {
